@@ -949,6 +949,9 @@ func (this *fileCompressTask) call() (int, uint64, uint64, error) {
 		// Delete input file
 		if inputName == "STDIN" {
 			log.Println("Warning: ignoring remove option with STDIN", verbosity > 0)
+		} else if strings.EqualFold(outputName, _COMP_NONE) {
+			// No output has been produced: the data would be lost
+			log.Println("Warning: ignoring remove option with output NONE", verbosity > 0)
 		} else if os.Remove(inputName) != nil {
 			log.Println("Warning: input file could not be deleted", verbosity > 0)
 		}
